@@ -3,9 +3,12 @@
 -/
 import FocaModel.Proofs.KindsReply
 import FocaModel.Proofs.FanOutSelf
+import FocaModel.Proofs.CalmDrain
+import FocaModel.Props.C07S
+import FocaModel.Props.C02S
 import FocaModel.Props.C18H
 namespace Foca.C18S
-open Foca
+open Foca Foca.C07
 
 /-- **What one delivered datagram makes an instance send, by kind.** Whatever the bytes, the state and the RNG draws,
     the datagrams sent while handling a delivered datagram are: rounds of Gossip (sent only when an update names the
@@ -72,28 +75,16 @@ theorem terminal_kinds_only_get_turnundead (m0 m : Msg) (h : AnswerTo m0 m) (h0 
 
 /-- **Gossip rounds are paid for by the datagram.** Delivering one datagram — any bytes, any state, any RNG draws —
     makes the instance send at most `k · (u + t) + 1` datagrams: `k` its `num_indirect_probes`, `u` the number of
-    updates in the datagram that name the instance's own address, `t` = 1 for a TurnUndead and 0 otherwise. (A
+    updates in the datagram that name the instance's own address as Suspect or Down, `t` = 1 for a TurnUndead and 0 otherwise. (A
     refinement of `C18H.bounded_fanout_per_datagram`, which charges a round to every update.) -/
 theorem fanout_counts_updates_about_receiver (E : Env) (s : State) (data : Bytes) (orc : Oracle) :
     match Foca.step E s (.data data) orc with
     | .done _ eff _ _ => sendCount eff ≤ s.cfg.k * (selfUpdatesIn E s.id.addr data + isTurnUndead E data) + 1
     | .stuck _ => True := by
-  have := (Cnt.handleData (a := s.id.addr) (k := s.cfg.k) E data).run ⟨s, [], orc⟩ rfl rfl
-  unfold CntPost at this
-  unfold Foca.step Foca.runOp
-  simp only [bind_run]
-  cases hr : handleData E data ⟨s, [], orc⟩ with
-  | stuck x => trivial
-  | ok u c' =>
-    rw [hr] at this
-    simp only [pure_run]
-    simpa only [sendCount, List.countP_nil, Nat.zero_add] using this
-  | err e c' =>
-    rw [hr] at this
-    simpa only [sendCount, List.countP_nil, Nat.zero_add] using this
+  exact step_selfCount E s data orc
 
 /-- **A datagram that says nothing about its receiver gets at most one answer.** If none of its updates names the
-    receiver's address and it is not a TurnUndead, delivering it causes at most one datagram — by `answers_descend`
+    receiver's address as Suspect or Down and it is not a TurnUndead, delivering it causes at most one datagram — by `answers_descend`
     the automatic answer, of strictly lower rank. Exchanges of such datagrams therefore end after at most four
     hops, whatever the states of the instances involved. -/
 theorem quiet_datagram_gets_one_answer (E : Env) (s : State) (data : Bytes) (orc : Oracle)
@@ -104,5 +95,62 @@ theorem quiet_datagram_gets_one_answer (E : Env) (s : State) (data : Bytes) (orc
   have := fanout_counts_updates_about_receiver E s data orc
   rw [hu, ht] at this
   simpa using this
+
+/-- **In a fault-free cluster every exchange ends, and soon.** Take a cluster reached without a failed probe round
+    (`CalmReach`, see `C02S.calm_cluster_stays_calm`: any number of instances, any history of deliveries, timers and
+    API calls so far), hold timers and API calls, and let the datagrams on the wire be delivered one at a time, in
+    any order, each to any instance (the addressee or not), each taken off the wire when handled. Then every
+    delivery puts at most one new datagram on the wire, of strictly lower rank than the one taken off: the weight of
+    the wire (`rank + 1` summed over its datagrams) drops by at least one per delivery, so after at most
+    `wireWeight` deliveries — at most five times the number of datagrams that were in flight — the network is empty
+    of anything that could still cause a datagram. No storm, no cycle, whatever the order. (For clusters with
+    suspicions, Down members and renewed identities the same measure needs the knowledge argument of DESIGN.md
+    Appendix B and is explored by the simulator.) -/
+theorem calm_exchanges_end (E : Env) (ids : List Id) (hl : CodecLaws E.codec) (hhdr : HeaderLaw E.codec)
+    (hdist : DistinctAddrs ids) {n n' : Net} {k : Nat} (hreach : CalmReach E ids n) (h : Drains E n k n') :
+    k + wireWeight E n'.wire ≤ wireWeight E n.wire ∧ wireWeight E n.wire ≤ 5 * n.wire.length :=
+  ⟨(calm_drain_bounded E ids hl hhdr hdist (CalmNet.reachable E ids hl hhdr hdist hreach) h).2, by
+    unfold wireWeight
+    induction n.wire with
+    | nil => simp
+    | cons p rest ih =>
+      simp only [List.map_cons, List.sum_cons, List.length_cons]
+      have : weight E p.2 ≤ 5 := by
+        unfold weight
+        split
+        · rename_i hh _ _
+          have := rank_le_four hh.msg
+          omega
+        · omega
+      omega⟩
+
+/-- one consuming delivery: at most one answer, lighter than what was delivered; the cluster stays calm -/
+theorem calm_delivery_gets_one_lighter_answer (E : Env) (ids : List Id) (hl : CodecLaws E.codec)
+    (hhdr : HeaderLaw E.codec) (hdist : DistinctAddrs ids) {n : Net} (hreach : CalmReach E ids n) (s s' : State)
+    (hs : s ∈ n.nodes) (d : Id) (b : Bytes) (hw : (d, b) ∈ n.wire) (orc left : Oracle) (eff : List Effect) (r : Res)
+    (hstep : Foca.step E s (.data b) orc = .done s' eff r left) :
+    sendCount eff ≤ 1 ∧ ∀ p ∈ sentDatagrams eff, weight E p.2 < weight E b :=
+  calm_delivery_answer E ids hl hhdr hdist n (CalmNet.reachable E ids hl hhdr hdist hreach) s s' hs d b hw orc left eff r hstep
+
+/-- the theorem applies outright to clusters running the models of the bundled codecs -/
+example (hd : Handler) (dbg : Bool) (ids : List Id) (hdist : DistinctAddrs ids) {n n' : Net} {k : Nat}
+    (hreach : CalmReach ⟨postcardCodec, hd, dbg⟩ ids n) (h : Drains ⟨postcardCodec, hd, dbg⟩ n k n') :
+    k ≤ 5 * n.wire.length := by
+  have := calm_exchanges_end ⟨postcardCodec, hd, dbg⟩ ids C07H.bundled_codec_laws.2.1 C07H.bundled_header_laws.2.1
+    hdist hreach h
+  omega
+
+/-- non-vacuity: in the worked cluster of `C02S` (instance 1 has announced itself to instance 2; wire weight 3) the
+    Announce is taken off the wire by instance 2, which answers with a Feed: one consuming delivery -/
+example : ∃ n n', CalmReach C08H.exEnv [⟨1, 0⟩, ⟨2, 0⟩] n ∧ wireWeight C08H.exEnv n.wire = 3 ∧
+    Drains C08H.exEnv n 1 n' := by
+  have h1 : ∃ n, CalmReach C08H.exEnv [⟨1, 0⟩, ⟨2, 0⟩] n ∧ wireWeight C08H.exEnv n.wire = 3 ∧
+      n.nodes[1]? = some C02S.exS2 ∧ ((⟨2, 0⟩ : Id), [0, 1, 0, 0, 0, 0, 0, 2, 0, 0, 6]) ∈ n.wire :=
+    ⟨_, CalmReach.api (E := C08H.exEnv) (ids := [⟨1, 0⟩, ⟨2, 0⟩]) 0 C02S.exS1 _ (.announce ⟨2, 0⟩)
+      ⟨[], [⟨[], []⟩]⟩ _ _ _ C02S.exInit rfl rfl (by intro d hd; cases hd; simp [IdWire]) rfl,
+      by decide, by rfl, by decide⟩
+  obtain ⟨n, hr, hw3, hnode, hmem⟩ := h1
+  exact ⟨n, _, hr, hw3, Drains.step (E := C08H.exEnv) 1 C02S.exS2 _ ⟨2, 0⟩ [0, 1, 0, 0, 0, 0, 0, 2, 0, 0, 6]
+    ⟨[.idx 0], [⟨[], []⟩]⟩ _ _ _ (Drains.refl _) hnode hmem rfl⟩
 
 end Foca.C18S
